@@ -24,7 +24,7 @@ func init() { verifChecks["C07"] = checkC07 }
 type c07World struct {
 	N       int    `json:"ha_nodes"`
 	Cascade bool   `json:"cascade"`
-	Kind    string `json:"request"` // to3 from1 auto-dead forced to2
+	Kind    string `json:"request"`        // to3 from1 auto-dead forced to2
 	Tail    bool   `json:"target_lagging"` // the master is ahead; replicas hold unapplied tails
 	Manager string `json:"manager"`
 	W       int    `json:"configured_count"`
